@@ -366,6 +366,8 @@ def run(ctx: Ctx) -> None:
     from .c11 import rule_emit_mirror
     rule_emit_mirror(ctx)   # inner_product relies on inverse_circuit's gate list describing what was done to the tableau
     rule_canonical_first(ctx)
+    from .c11 import rule_zpivot_hadamard
+    rule_zpivot_hadamard(ctx)
     from ..rules import bitform as _bitform
     _bitform.rule_helper_shape(ctx)
     _bitform.rule_g_table(ctx)
